@@ -34,6 +34,20 @@ class OutOfBounds(Exception):
     """The interpreted code indexed outside an array (numba does not bounds-check)."""
 
 
+class Poison:
+    """value read from outside an array: numba reads whatever is there.  Holding it is harmless, any use of it
+    (arithmetic, comparison, store into a result) makes the obligation inconclusive."""
+    def __init__(self, why):
+        self.why = why
+
+    def _bad(self, *a, **k):
+        raise OutOfBounds("use of a value read out of bounds: " + self.why)
+    __add__ = __radd__ = __sub__ = __rsub__ = __mul__ = __rmul__ = __truediv__ = __rtruediv__ = _bad
+    __lt__ = __le__ = __gt__ = __ge__ = __eq__ = __ne__ = __neg__ = __bool__ = __pow__ = __index__ = _bad
+    __and__ = __or__ = __xor__ = __invert__ = __float__ = __int__ = _bad
+    __hash__ = None
+
+
 # ------------------------------------------------------------------ booleans with constant folding
 class SBool:
     __slots__ = ('t',)
@@ -213,23 +227,56 @@ class Num:
     def is_plain(self):
         return self.nan is False and _is0(self.inf)
 
-    def _bin(self, o, f):
+    def _bin(self, o, f, kind=None):
         if isinstance(o, SInt):
             raise Unsupported("float op machine-int")
         if not isinstance(o, (Num, int, float, np.integer, np.floating)):
             return NotImplemented
         ov, on, oi = Num.parts(o)
         if not (_is0(self.inf) and _is0(oi)):
-            raise Unsupported("arithmetic on possibly-infinite value")
+            return self._bin_inf(Num(ov, on, oi), kind)
         nan = Or(wrapb(self.nan), wrapb(on))
         return Num(f(self.v, ov), nan)
 
-    def __add__(self, o): return self._bin(o, operator.add)
-    def __radd__(self, o): return self._bin(o, lambda a, b: b + a)
-    def __sub__(self, o): return self._bin(o, operator.sub)
-    def __rsub__(self, o): return self._bin(o, lambda a, b: b - a)
-    def __mul__(self, o): return self._bin(o, zmul)
-    def __rmul__(self, o): return self._bin(o, lambda a, b: zmul(b, a))
+    def _sign(self):
+        """-1/0/+1 as a z3 Int term (sign of the extended real)"""
+        v = self.v if z3.is_expr(self.v) else (z3.RealVal(repr(self.v)) if isinstance(self.v, float) else z3.IntVal(self.v))
+        sg = z3.If(v > 0, 1, z3.If(v < 0, -1, 0))
+        if _is0(self.inf):
+            return sg
+        inf = self.inf if z3.is_expr(self.inf) else z3.IntVal(self.inf)
+        return z3.If(inf != 0, inf, sg)
+
+    def _bin_inf(self, b, kind):
+        """IEEE arithmetic when an operand may be +-inf: add / sub / mul (overflow to inf is not modelled)"""
+        a = self
+        if kind == 'rsub':
+            a, b, kind = b, a, 'sub'
+        if kind == 'sub':
+            b, kind = -b, 'add'
+        ia = a.inf if z3.is_expr(a.inf) else z3.IntVal(a.inf)
+        ib = b.inf if z3.is_expr(b.inf) else z3.IntVal(b.inf)
+        if kind == 'add':
+            nan = Or(wrapb(a.nan), wrapb(b.nan), wrapb(z3.And(ia != 0, ib != 0, ia != ib)))
+            inf = z3.If(ia != 0, ia, ib)
+            return Num(a.v + b.v, nan, z3.simplify(inf))
+        if kind == 'mul':
+            av = a.v if z3.is_expr(a.v) else z3.IntVal(a.v) if not isinstance(a.v, float) else z3.RealVal(repr(a.v))
+            bv = b.v if z3.is_expr(b.v) else z3.IntVal(b.v) if not isinstance(b.v, float) else z3.RealVal(repr(b.v))
+            za = z3.And(ia == 0, av == 0)
+            zb = z3.And(ib == 0, bv == 0)
+            nan = Or(wrapb(a.nan), wrapb(b.nan), wrapb(z3.And(ia != 0, zb)), wrapb(z3.And(ib != 0, za)))
+            sa, sb = a._sign(), b._sign()
+            inf = z3.If(z3.Or(ia != 0, ib != 0), z3.If(sa == sb, 1, -1), 0)
+            return Num(zmul(a.v, b.v), nan, z3.simplify(inf))
+        raise Unsupported("arithmetic on possibly-infinite value")
+
+    def __add__(self, o): return self._bin(o, operator.add, 'add')
+    def __radd__(self, o): return self._bin(o, lambda a, b: b + a, 'add')
+    def __sub__(self, o): return self._bin(o, operator.sub, 'sub')
+    def __rsub__(self, o): return self._bin(o, lambda a, b: b - a, 'rsub')
+    def __mul__(self, o): return self._bin(o, zmul, 'mul')
+    def __rmul__(self, o): return self._bin(o, lambda a, b: zmul(b, a), 'mul')
 
     @staticmethod
     def _div(a, b):
@@ -340,6 +387,10 @@ def ite(c, a, b):
         return b
     if a is b:
         return a
+    if isinstance(a, Poison):
+        return a
+    if isinstance(b, Poison):
+        return b
     if isinstance(a, np.generic):
         a = a.item()
     if isinstance(b, np.generic):
